@@ -395,6 +395,79 @@ def e5(ctx, fx, U):
             else:
                 ctx.finding("C08.E5", fn, "placeholder-single-member", "an array placeholder object with extra members is processed (length set %s)" % fmt_lenset(ls), line=fn.term(b).get("line"))
     ctx.floor("C08.E5", "placeholder lookups", n_ph, 1)
+    placeholder_routing(ctx, fx, U)
+
+
+def placeholder_routing(ctx, fx, U):
+    """The complement of placeholder-single-member: *every* array element object that has a `...` member is treated as a placeholder (and
+    so meets the single-member check): the element is handed to the generic walker only on paths where it is not an object or the
+    `...` lookup failed. A routing condition that looks at anything else (`len() == 1 && contains_key("...")`) sends `{"...": d, "x": 1}`
+    down the generic path, where it is copied to the output like any object instead of being rejected."""
+    nroute = 0
+    od = fx.variant_discr("serde_json::Value", "Object")
+    for fn in U.fns:
+        fv = vals(fn)
+        tests = []   # (item, good_edges)
+        for (bb, tt, ft, c) in bool_switches(fn):
+            if c.kind == "call" and c.d["term"].get("name") == "contains_key" and len(c.kids) > 1 and const_value(c.kids[1]) == "...":
+                tests.append((peel(c.kids[0]), [(bb, ft)]))
+        for b2, t2 in fn.calls():
+            n2 = fv.call_node(b2)
+            if t2.get("name") == "get" and len(n2.kids) > 1 and const_value(n2.kids[1]) == "...":
+                tests.append((peel(n2.kids[0]), list(success_edges(fn, n2)[1])))
+        if not tests:
+            continue
+        wnames = [f.name for f in U.fns]
+        cand = {}
+        for b2, t2 in fn.calls():
+            if t2.get("resolved_local") and t2.get("resolved") in wnames:
+                for k in fv.call_node(b2).kids[1:]:
+                    cand[id(peel(k))] = peel(k)
+        items = {}
+        for (obj, good) in tests:
+            # the element the tested map belongs to: the first node below `obj` (receiver chain) that is handed, as it is, to a walker
+            x = None
+            y = obj
+            g = 0
+            while g < 8:
+                if id(y) in cand:
+                    x = y
+                    break
+                if not y.kids:
+                    break
+                y = peel(y.kids[0])
+                g += 1
+            if x is None:
+                continue
+            items.setdefault(id(x), [x, []])[1].extend(good)
+        for (_k, (item, good)) in items.items():
+            # not-an-object edges of a switch on the item itself
+            for (sb, subj) in common.discr_switches(fn):
+                if peel(subj) is item:
+                    t = fn.term(sb)
+                    listed = [v for (v, _) in t["targets"]]
+                    for (v, tg) in t["targets"]:
+                        if v != od:
+                            good.append((sb, tg))
+                    if od in listed and t.get("otherwise") is not None:
+                        good.append((sb, t["otherwise"]))
+            for b2, t2 in fn.calls():
+                n2 = fv.call_node(b2)
+                if t2.get("name") == "as_object" and n2.kids and peel(n2.kids[0]) is item:
+                    good.extend(success_edges(fn, n2)[1])
+            for b2, t2 in fn.calls():
+                if not t2.get("resolved_local") or t2.get("resolved") not in [f.name for f in U.fns]:
+                    continue
+                n2 = fv.call_node(b2)
+                if not any(peel(k) is item for k in n2.kids[1:]):
+                    continue
+                nroute += 1
+                if good and guarded(fn, b2, good):
+                    ctx.ok("C08.E5", fn, "placeholder-routing", "an array element reaches the generic walker only when it is not an object or has no `...` member", line=t2.get("line"))
+                else:
+                    ctx.finding("C08.E5", fn, "placeholder-routing", "an array element object that has a `...` member can be handed to the generic walker (the placeholder arm is chosen by more than "
+                                "the presence of `...`): `{\"...\": d, \"x\": 1}` is copied to the output instead of being rejected", line=t2.get("line"))
+    ctx.floor("C08.E5", "array elements routed to the generic walker", nroute, 1)
 
 
 def placeholder_len(fn, obj):
